@@ -31,7 +31,8 @@ def allNew : List NewSite :=
   [.arrAdd, .arrAddAll, .arrDelete, .arrDeleteAll, .arrMap, .arrSelect, .arrReject, .arrSort, .arrFlatten0, .arrUnique2,
    .hashAdd0, .hashAdd1, .hashAddAll0, .hashDelete0, .hashDeleteAll1, .hashMap, .hashMapValues, .hashSelect, .hashReject,
    .hashSelectPairs, .hashRejectPairs, .hashMerge, .hashSort, .hashFlatten0, .hashFlatten1, .hashKeys, .hashValues,
-   .mutPutAll, .hashEachSlice, .hashAsArray, .hashMapEntries, .hashAddAll1]
+   .mutPutAll, .hashEachSlice, .hashAsArray, .hashMapEntries, .hashAddAll1, .mutDelete, .mutDeleteAll, .mutEntries,
+   .mutUnique]
 def allCtor : List CtorSite := [.wrapValues, .wrapHash, .buildArray, .buildHash, .newMutable]
 
 theorem allSame_complete (s : SameSite) : s ∈ allSame := by cases s <;> simp [allSame]
